@@ -128,6 +128,11 @@ fn build_rec_uncached(seed: u64, seq: u64, shape: &str, pad: usize) -> Option<En
             // one /24 shared by all such records (IP-diversity limits)
             b.ip4(Ipv4Addr::new(10, 250, 250, (seed % 250 + 1) as u8));
             b.udp4(9000 + (seed % 500) as u16);
+        } else if shape.contains('u') {
+            // an address no datagram is delivered to (unspecified / a multicast group): as admissible
+            // and as contactable as any other, the protocol does not judge addresses
+            b.ip4(if seed % 2 == 0 { Ipv4Addr::new(0, 0, 0, 0) } else { Ipv4Addr::new(224, 0, 0, (seed % 250) as u8) });
+            b.udp4(9000 + (seed % 500) as u16);
         } else if shape.contains('4') {
             let (ip, port) = ip4_of(seed, alt);
             b.ip4(ip);
@@ -409,6 +414,8 @@ pub struct Inst {
     pub concurrent: bool,
     pub query_epoch: u64,
     pub query_answered: std::collections::HashSet<[u8; 32]>,
+    /// nodes the running lookup certainly learned of from answers (see `nodes_packet`)
+    pub query_learned: std::collections::HashSet<[u8; 32]>,
     pub query_lost: bool,
     pub query_dup: Vec<[u8; 32]>,
     /// `auto_nat_listen_duration` as the built configuration has it
@@ -527,6 +534,7 @@ impl Inst {
             concurrent: false,
             query_epoch: 0,
             query_answered: Default::default(),
+            query_learned: Default::default(),
             query_lost: false,
             query_dup: Vec::new(),
             auto_nat,
@@ -1211,7 +1219,19 @@ impl ServiceRunner {
                         }
                     }
                 }
+                if let Some(n) = r.strip_prefix("ok:").and_then(|n| n.split(':').next().unwrap_or("").parse::<usize>().ok()) {
+                    let k = inst.query_k.unwrap_or(16);
+                    if n < k && !inst.concurrent {
+                        if let Some(miss) = inst.query_learned.iter().find(|id| !inst.query_asked.contains(*id)) {
+                            s.push_str(&format!(
+                                "\n!MON C10 lookup-short-although-a-node-it-learned-of-was-never-asked id={} got={} k={}",
+                                id8(miss), n, k
+                            ));
+                        }
+                    }
+                }
                 inst.query_start.clear();
+                inst.query_learned.clear();
                 inst.query_k = None;
                 s.push_str(&format!("\n!INFO query-result {}", r));
             }
@@ -1262,7 +1282,7 @@ impl ServiceRunner {
                         if d >= 246 {
                             if let Some(s) = mine(base, |id| dist(&resp_id, id) == d) {
                                 self.seeds.insert(id_of_seed(s), s);
-                                if let Some(e) = build_rec(s, 1 + base % 5, "4", pad) {
+                                if let Some(e) = build_rec(s, 1 + base % 5, if base % 11 == 7 { "u" } else { "4" }, pad) {
                                     v.push(e);
                                 }
                             }
@@ -1358,10 +1378,36 @@ impl ServiceRunner {
         let _ = self.insts[&x].hout.try_send(HandlerOut::Response(from.clone(), Box::new(resp)));
         let so = self.observe(x, self.insts[&x].reqs[k - 1].is_query, false);
         let banned = so.bans_node.iter().any(|n| n.raw() == from.node_id.raw()) || so.bans_ip.contains(&from.socket_addr.ip());
+        // C10: records of this packet that the lookup certainly took up as candidates - reported as
+        // discovered, admissible (table filter, contactable in this node's IP mode), not the responder's
+        // own, and not refused as an update of a stored older record (the one way admission can still fail;
+        // nodes with IP limits are left out, there a parked node's update can be refused unseen)
+        let learn_cand: Vec<[u8; 32]> = {
+            let inst = &self.insts[&x];
+            if inst.ip_limit || so.discovered.is_empty() {
+                Vec::new()
+            } else {
+                let table = inst.discv5.table_entries_enr();
+                nodes
+                    .iter()
+                    .filter(|e| {
+                        let nid = e.node_id().raw();
+                        so.discovered.contains(&nid)
+                            && nid != from.node_id.raw()
+                            && nid != inst.local_id
+                            && passes(inst.filter, e)
+                            && contactable_addr(inst.mode, e).is_some()
+                            && !table.iter().any(|t| t.node_id() == e.node_id() && t.seq() < e.seq())
+                    })
+                    .map(|e| e.node_id().raw())
+                    .collect()
+            }
+        };
         let inst = self.insts.get_mut(&x).unwrap();
         let cur_epoch = inst.query_epoch;
         let q_lost = &mut inst.query_lost;
         let q_answered = &mut inst.query_answered;
+        let q_learned = &mut inst.query_learned;
         let r = &mut inst.reqs[k - 1];
         let processed = was_active && right_addr && is_findnode && !callback;
         if !was_active || !right_addr {
@@ -1393,6 +1439,9 @@ impl ServiceRunner {
         stats.bump("s.c11.nodes-packets");
         if r.is_query && r.epoch == cur_epoch {
             q_answered.insert(resp_id);
+            for id in learn_cand {
+                q_learned.insert(id);
+            }
         }
         // a ban hits the party that misbehaved - the node id it proved and the address it sent from -,
         // never an address that party merely claims (in its record)
@@ -1673,10 +1722,26 @@ impl Runner for ServiceRunner {
             _ if !self.insts.contains_key(&x) && t[0] != "sbans" => noop(out),
             // an address is put on the permit list (packets from it always pass the filter; misbehaviour
             // is recorded all the same)
-            ["spermit", _, addr] => {
+            ["spermit", _, addr, rest @ ..] => {
                 let Some(a) = parse_addr(addr) else { return noop(out) };
                 discv5::verif::limiter::permit_ip(a.ip());
                 stats.bump("s.permitted-ip");
+                // `ban=<peer>`: the same address and that node id also carry a ban entry (an operator permits a
+                // peer the rate limiter banned a minute ago).  The permit lists take precedence in the packet
+                // filter, so this peer's requests still reach the service - and are owed their answers.
+                if let Some(pid) = rest.first().and_then(|r| r.strip_prefix("ban=")).and_then(parse_peer) {
+                    discv5::verif::limiter::permit_node(NodeId::new(&pid));
+                    discv5::verif::limiter::ban_ip(a.ip(), Some(Duration::from_secs(3600)));
+                    discv5::verif::limiter::ban_node(NodeId::new(&pid), Some(Duration::from_secs(3600)));
+                    let snap = discv5::verif::limiter::permit_ban_snapshot();
+                    for (ip, exp) in &snap.ban_ips {
+                        self.ban_prev_ips.insert(*ip, *exp);
+                    }
+                    for (nid, exp) in &snap.ban_nodes {
+                        self.ban_prev_nodes.insert(nid.raw(), *exp);
+                    }
+                    stats.bump("s.permitted-peer-that-is-also-banned");
+                }
                 out.push(format!("!OP spermit {}", x));
                 out.push("ok".into());
             }
@@ -2247,6 +2312,7 @@ impl Runner for ServiceRunner {
                     inst.query_asked.clear();
                     inst.query_epoch += 1;
                     inst.query_answered.clear();
+                    inst.query_learned.clear();
                     inst.query_lost = false;
                     inst.query_dup.clear();
                     if !inst.query_start.is_empty() {
@@ -2910,8 +2976,17 @@ fn gen_c14(rng: &mut Rng, ops: &mut Vec<String>, stats: &mut Stats) {
         }
     }
     let nreq = rng.range(6, 16);
+    // one requester is on the permit list and on the ban list at once
+    let permitted_banned = if rng.chance(1, 4) {
+        let r = if !members.is_empty() && rng.chance(1, 2) { members[rng.below(members.len() as u64) as usize] } else { rng.range(500, 600) };
+        ops.push(format!("spermit A {} ban=k{}", peer_addr(r, mode), r));
+        Some(r)
+    } else { None };
     for _ in 0..nreq {
-        let requester = if !members.is_empty() && rng.chance(1, 3) { members[rng.below(members.len() as u64) as usize] } else { rng.range(500, 600) };
+        let requester = match permitted_banned {
+            Some(r) if rng.chance(1, 3) => r,
+            _ => if !members.is_empty() && rng.chance(1, 3) { members[rng.below(members.len() as u64) as usize] } else { rng.range(500, 600) },
+        };
         let addr = if rng.chance(1, 8) {
             let mut s = peer_addr(requester, mode);
             let i = s.rfind('/').unwrap();
